@@ -57,6 +57,12 @@ CLAIMED = {
  "C20": dict(engine="factory", technique="TLC model checking of Factory.tla with an actions-per-instant bound (F_C20_FiniteInstant) + TLC judgement of the outcome of every enumerated valid / invalid configuration run on the real classes (T_C20_NoCrash, T_C20_FiniteInstant, T_C20_Rejects)",
    text="Every enumerated valid configuration runs to T without exception and with a bounded number of kernel events per instant; every configuration of the six listed invalid classes is rejected at construction or by an error during the run. One recorded known finding (conveyor can_put/can_get).",
    ref="5 C20"),
+ "C12": dict(engine="belt", technique="TLC model checking of the positional reference model ConveyorRef.tla (R_C12_*; it also proves the closed forms the trace oracle uses) + TLC trace validation (Trace_Conveyor.tla, T_C12_*) of scripted producer/consumer runs of the real continuous and slotted conveyors",
+   text="Order, capacity, entry spacing, minimum travel time and exact travel time when never stalled: invariants / action properties of the reference conveyor for several geometries and both modes; on the implementation every event of every scripted run (regular, bursty, irregular arrivals on the tick grid x immediate / late / mixed service x 3 geometries x both classes x both modes + seeded random scripts) is judged by TLC. One recorded known finding (two grants in one instant).",
+   ref="5 C12, 3.4"),
+ "C13": dict(engine="belt", technique="TLC model checking of ConveyorRef.tla (R_C13_*: frozen belt, close-up, no overlap, and the closed forms offer = enter + L + stalled time / offer = max(enter + L, take(pred) + Slot)) + TLC trace validation (T_C13_NoAdmit, T_C13_Frozen, T_C13_CloseUp, T_C13_AdmitToCap) of runs of the real conveyors",
+   text="Stall behaviour of both modes judged on real runs against closed forms that TLC proves for the positional reference model. The unchanged tree violates several clauses (slotted belt never stalls, continuous belt admits and advances during a stall, followers stop short): these are recorded known findings with precise signatures (clause, class, mode, kind of deviation); any other deviation is reported.",
+   ref="5 C13, 3.4"),
 }
 NOTE = ("trusted: TLC 1.8, CommunityModules Json/IOUtils, SimPy kernel semantics (modelled, not verified), the ledger fold of the "
         "trace specifications, CPython; small-scope bounds for leg A/B as listed in the evidence; integer tick times")
@@ -89,6 +95,8 @@ m = {
  "engines": [
    {"name": "store", "path": "fsverif/store_engine.py", "serves_properties": ["C01","C02","C04","C05","C06","C07","C11","C14"],
     "kind_free_text": "TLA+ StoreCore/Store model checked by TLC; exported graph walked on the real store/edge classes; traces validated by TLC (Trace_Store, Trace_StoreBind)"},
+   {"name": "belt", "path": "fsverif/belt_check.py", "serves_properties": ["C12","C13"],
+    "kind_free_text": "positional reference conveyor ConveyorRef.tla model checked by TLC; scripted producer/consumer runs of the real conveyor edges validated by TLC (Trace_Conveyor)"},
    {"name": "factory", "path": "fsverif/factory_engine.py", "serves_properties": ["C03","C08","C09","C10","C15","C16","C17","C18","C20"],
     "kind_free_text": "TLA+ Factory model (nodes as per-yield-segment actions over StoreCore edges, all same-instant interleavings) checked by TLC; configurations run on the real classes under a traced kernel; runs validated by TLC (Trace_Factory)"},
  ],
